@@ -92,15 +92,17 @@ Definition ramp_run_f64 (from to dur : Z) (ts : list Z) : list Z :=
 (* ---------------------------------------------------------------- property predicate *)
 
 (* Exact interpolation e = off*delta/dur as a rational; an output v of the
-   interpolation term is acceptable when it is within 1 of e (v <= e < v+1 for
-   an ascending stage up to one unit in the last place of the product, see
-   C10_close) and inside [0, delta]. Checked on integers:
-   |v*dur - off*delta| <= dur + slack. *)
+   interpolation term is acceptable when it is inside [0, delta] and within
+   1 + 5*|delta|/2^53 of e - the bound C10_close proves for the binary64
+   term (four correctly rounded operations, then truncation). Checked on
+   integers: 2^53 * |v*dur - off*delta| < 2^53 * dur + 5 * |delta| * dur. *)
 Definition interp_ok (off dur delta v : Z) : bool :=
-  if delta >=? 0 then (0 <=? v) && (v <=? delta) &&
-                      (v * dur <=? off * delta + 1) && (off * delta <? (v + 1) * dur + 1)
-  else (delta <=? v) && (v <=? 0) &&
-       (off * delta - 1 <=? v * dur) && ((v - 1) * dur - 1 <? off * delta).
+  (if delta >=? 0 then (0 <=? v) && (v <=? delta) else (delta <=? v) && (v <=? 0)) &&
+  (2 ^ 53 * Z.abs (v * dur - off * delta) <? 2 ^ 53 * dur + 5 * Z.abs delta * dur).
+
+(* the literal reading "within 1 of the exact value": |v - e| <= 1 *)
+Definition within_one (off dur delta v : Z) : bool :=
+  Z.abs (v * dur - off * delta) <=? dur.
 
 Fixpoint sorted_from (lo : Z) (ts : list Z) : bool :=
   match ts with
